@@ -466,7 +466,13 @@ def make_tissue(spec, rng):
     from harness.gen import cattissue
     src = spec["tissue"]
     if src["kind"] == "equilibrium":
-        t = eq.make(rng, src.get("ncells", 20), src.get("mobius", 0.0))
+        for _ in range(6):
+            t = eq.make(rng, src.get("ncells", 20), src.get("mobius", 0.0))
+            # steering: a Voronoi edge of 1e-8 tissue sizes (two junctions that all but coincide) is below every resolution in
+            # play - its direction is rounding noise in the generator itself; such a tissue is drawn again
+            ext = max(abs(a - b) for a in t["pos"].values() for b in t["pos"].values())
+            if min(abs(t["pos"][a] - t["pos"][b]) for (a, b) in t["edges"]) > 1e-5 * ext:
+                break
         normalise_tensions(t)
         if src.get("noise"):
             for r in t["edges"].values():
